@@ -1,9 +1,12 @@
 (** Model of proxy/gzip/gzip_handler.go (NewGzipHandler, GzipResponseWriter.WriteHeader /
     Write / Close, isCompressable, acceptsGzip) running an arbitrary inner handler, given as
     the sequence of calls it makes on its http.ResponseWriter, on top of an
-    httptest.ResponseRecorder behind net/http's 1xx rule (the underlying writer the harness uses; its
-    relevant behaviour -- header snapshot at the first WriteHeader/Write, implicit 200,
-    Content-Type sniffing -- is transcribed from net/http/httptest/recorder.go).
+    underlying writer that follows net/http's server (server.go): header snapshot at the first
+    final WriteHeader/Write, implicit 200, 1xx codes sent at once without finalising, and the
+    server's Content-Type sniffing rule applied when the response is finished: no Content-Type key,
+    no Transfer-Encoding, NO non-empty Content-Encoding, non-empty body -> DetectContentType of
+    the body's start.  The harness's underlying writer implements the same rule and is compared
+    with the real server on every end-to-end script.
 
     External library behaviour is abstract:
       [sniff]  http.DetectContentType            (Section variable, supplied per case by the harness)
@@ -56,7 +59,7 @@ Inductive op :=
 | AddHeader (k v : str)       (* w.Header().Add(k, v) *)
 | DelHeader (k : str)         (* w.Header().Del(k) *)
 | ClearHeaders                (* clear(w.Header()): httputil.ReverseProxy after forwarding a 1xx *)
-| WriteHeader (c : N)         (* w.WriteHeader(c), 100 <= c <= 999, c <> 101 *)
+| WriteHeader (c : N)         (* w.WriteHeader(c); the modelled domain is [valid_code c] *)
 | Write (b : str).            (* w.Write(b) *)
 
 Definition hdr_op (o : op) (h : hdr) : hdr :=
@@ -76,6 +79,12 @@ Definition written (ops : list op) : str :=
    with the current header map and stays ready for the final WriteHeader (server.go, "code >= 100
    && code <= 199 && code != StatusSwitchingProtocols"); 101 is outside the modelled domain *)
 Definition is_1xx (c : N) : bool := (100 <=? c) && (c <=? 199).
+
+(* the modelled domain of status codes: net/http panics outside 100..999, and 101 (Switching
+   Protocols) is final for the server although the handler passes it on like a 1xx *)
+Definition valid_code (c : N) : bool := (100 <=? c) && (c <=? 999) && negb (c =? 101).
+Definition valid_codes (ops : list op) : bool :=
+  forallb (fun o => match o with WriteHeader c => valid_code c | _ => true end) ops.
 
 (* strings.Cut(s, string(c)): before and after the first c (after = "" when there is none) *)
 Fixpoint cut_byte (s : str) (c : N) : str * str :=
@@ -131,10 +140,10 @@ Section Handler.
 Variable sniff : str -> str.     (* http.DetectContentType *)
 Variable ctm : str -> bool.      (* contentTypes.MatchString *)
 
-(* ---------- the underlying http.ResponseWriter ----------
-   httptest.ResponseRecorder behind net/http's rule for informational codes: a 1xx
-   WriteHeader before the final one is sent at once with the current header map and does
-   not finalise the response (the recorder alone would treat it as final). *)
+(* ---------- the underlying http.ResponseWriter (net/http's server) ----------
+   a 1xx WriteHeader before the final one is sent at once with the current header map and does
+   not finalise the response; the final WriteHeader / first Write snapshots the header map;
+   Content-Type sniffing happens when the response is finished ([finish_hdr]). *)
 Record rcd := mkR {
   r_hdr : hdr;                (* HeaderMap (live) *)
   r_wrote : bool;             (* the final header has been written *)
@@ -155,17 +164,20 @@ Definition rec_write_header (c : N) (r : rcd) : rcd :=
   else if is_1xx c then mkR (r_hdr r) false (r_code r) (r_snap r) (r_body r) (r_info r ++ [(c, r_hdr r)])
   else mkR (r_hdr r) true c (r_hdr r) (r_body r) (r_info r).
 
-(* ResponseRecorder.Write = writeHeader(buf, "") ; Body.Write(buf) *)
+(* Write: implicit WriteHeader(200), then the bytes *)
 Definition rec_write (b : str) (r : rcd) : rcd :=
-  let r1 :=
-    if r_wrote r then r
-    else
-      let r' := match hvals (r_hdr r) H_CT with
-                | None => if beq (hget (r_hdr r) H_TE) [] then rec_upd (fun h => hset h H_CT (sniff b)) r else r
-                | Some _ => r
-                end in
-      mkR (r_hdr r') true 200 (r_hdr r') (r_body r') (r_info r') in
+  let r1 := if r_wrote r then r else mkR (r_hdr r) true 200 (r_hdr r) (r_body r) (r_info r) in
   mkR (r_hdr r1) (r_wrote r1) (r_code r1) (r_snap r1) (r_body r1 ++ b) (r_info r1).
+
+(* server.go, chunkWriter.writeHeader: "if !hasCE && !haveType && !hasTE && len(p) > 0" sniff.
+   [body] is everything written; DetectContentType looks at its first 512 bytes only, which is
+   what the server has in hand at its first flush. *)
+Definition finish_hdr (h : hdr) (body : str) : hdr :=
+  match hvals h H_CT with
+  | Some _ => h
+  | None => if beq (hget h H_TE) [] && beq (hget h H_CE) [] && negb (beq body [])
+            then hset h H_CT (sniff body) else h
+  end.
 
 Definition rec_step (o : op) (r : rcd) : rcd :=
   match o with
@@ -246,7 +258,7 @@ Definition rec_run (ops : list op) (r : rcd) : rcd := fold_left (fun r o => rec_
 (* ---------- what the client sees ---------- *)
 Record result := mkRes {
   o_code : N;              (* final status *)
-  o_hdr : hdr;             (* final headers: the snapshot, or the live map when nothing was written *)
+  o_hdr : hdr;             (* final headers: the snapshot (the live map when nothing was written) after the server's sniffing *)
   o_plain : str;           (* bytes written to the underlying writer directly *)
   o_fed : option str;      (* Some f: a gzip writer was used, fed f, closed (flushes everything) *)
   o_panic : bool;
@@ -254,7 +266,7 @@ Record result := mkRes {
 }.
 
 Definition rec_result (r : rcd) (fed : option str) (p : bool) : result :=
-  mkRes (r_code r) (if r_wrote r then r_snap r else r_hdr r) (r_body r) fed p (r_info r).
+  mkRes (r_code r) (finish_hdr (if r_wrote r then r_snap r else r_hdr r) (r_body r)) (r_body r) fed p (r_info r).
 
 (* Close: gzipWriter != nil  <->  the decision was "compress" *)
 Definition grw_result (g : grw) : result :=
@@ -289,6 +301,13 @@ Definition handler_unrepaired (h0 : hdr) (accept ae : list str) (ops : list op) 
 Definition bare (h0 : hdr) (ops : list op) : result :=
   rec_result (rec_run ops (rec_new h0)) None false.
 
+(* the inner handler may end by panicking (http.ErrAbortHandler, e.g. httputil.ReverseProxy when the
+   backend dies mid-body): the deferred Close still runs -- the response so far is the one of a normal
+   return -- and the panic propagates to the server, which aborts the connection *)
+Record served := mkS { s_res : result; s_propagated : bool }.
+Definition serve (h0 : hdr) (accept ae : list str) (ops : list op) (abort : bool) : served :=
+  mkS (handler h0 accept ae ops) abort.
+
 End Handler.
 
 (* the body on the wire, for a whole-stream compressor [gz] *)
@@ -297,9 +316,9 @@ Definition body_of (gz : str -> str) (res : result) : str :=
 
 (* ================= specification side: RFC 9110 12.5.3 Accept-Encoding =================
    Accept-Encoding = #( codings [ weight ] ),  weight = OWS ";" OWS "q=" qvalue  (12.4.2; the
-   literal "q" is case-insensitive, RFC 5234).  An element is read as  coding [ ";" params ];
-   params are a weight only if they are exactly one  q=<value>  (either case, no further ";");
-   anything else after the coding is not a weight and is ignored (lenient: weight 1). *)
+   literal "q" is case-insensitive, RFC 5234).  An element is read as  coding *( ";" parameter );
+   a coding is refused when ANY of its parameters is a zero weight -- also when other (extension)
+   parameters stand before or after it: "gzip;q=0;x=1" is a refusal. *)
 
 (* qvalue = "0" [ "." *("0") ]   (anything else is taken as non-zero) *)
 Definition q_zero (v : str) : bool :=
@@ -309,16 +328,17 @@ Definition q_zero (v : str) : bool :=
   | a :: b :: ds => (a =? 48) && (b =? 46) && forallb (fun c => c =? 48) ds
   end.
 
-Definition strict_weight (params : str) : option str :=
-  match trim_space params with
-  | c :: d :: v => if ((c =? 113) || (c =? 81)) && (d =? 61) && negb (existsb (N.eqb 59) v) then Some v else None
-  | _ => None
+Definition param_q_zero (p : str) : bool :=
+  match lower (trim_space p) with
+  | c :: d :: v => (c =? 113) && (d =? 61) && q_zero v
+  | _ => false
   end.
+
+Definition weight_zero (params : str) : bool := existsb param_q_zero (split_byte params 59).
 
 (* one list element -> (lower-cased coding, its weight is not zero) *)
 Definition coding (e : str) : str * bool :=
-  let (name, params) := cut_byte e 59 in
-  (lower (trim_space name), match strict_weight params with Some v => negb (q_zero v) | None => true end).
+  let (name, params) := cut_byte e 59 in (lower (trim_space name), negb (weight_zero params)).
 
 (* does the request allow a gzip-coded response?  if gzip / x-gzip is listed: some such entry has
    a non-zero weight; else "*" with a non-zero weight; no field at all is treated as "no" *)
@@ -327,6 +347,40 @@ Definition rfc_accepts_gzip (ae : list str) : bool :=
   if existsb (fun c => is_gzip_name (fst c)) cs
   then existsb (fun c => is_gzip_name (fst c) && snd c) cs
   else existsb (fun c => beq (fst c) [42] && snd c) cs.
+
+(* ================= known-finding regions: predicates on the input only =================
+   region 1 (F-C17-5): the first Accept-Encoding line has a gzip / x-gzip element with two or more
+   parameters one of which is a zero weight ("gzip;q=0;x=1", "gzip;x=1;q=0"): acceptsGzip only looks
+   at "q=" right after the first ";" and requires the rest to be zeros and dots *)
+Definition q0_ext_elem (e : str) : bool :=
+  let (name, params) := cut_byte e 59 in
+  is_gzip_name (lower (trim_space name)) && Nat.leb 2 (length (split_byte params 59)) && weight_zero params.
+Definition q0_ext_region (ae : list str) : bool := existsb q0_ext_elem (split_byte (hd [] ae) 44).
+
+(* region 2 (F-C17-3): the request is accepted, the inner handler's first non-informational call is a
+   Write, and no Content-Type key exists at that moment: GzipResponseWriter.Write then sets
+   DetectContentType(first chunk) -- also when it goes on NOT to compress *)
+Fixpoint implicit_no_ct (h : hdr) (ops : list op) : bool :=
+  match ops with
+  | [] => false
+  | Write _ :: _ => match hvals h H_CT with None => true | Some _ => false end
+  | WriteHeader c :: r => if is_1xx c then implicit_no_ct h r else false
+  | o :: r => implicit_no_ct (hdr_op o h) r
+  end.
+Definition sniff_region (h0 : hdr) (accept ae : list str) (ops : list op) : bool :=
+  accepts_gzip accept ae && implicit_no_ct h0 ops.
+
+(* region 3 (F-C17-4): the upstream's Content-Encoding has an empty first value and a non-empty later
+   one (two header lines "Content-Encoding:" and "Content-Encoding: br"): isCompressable reads Get =
+   the first value only *)
+Definition ce_hidden (vs : list str) : bool :=
+  match vs with
+  | v :: rest => beq v [] && existsb (fun x => negb (beq x [])) rest
+  | [] => false
+  end.
+Definition ce_values (h : hdr) : list str := match hvals h H_CE with Some vs => vs | None => [] end.
+(* "not already encoded": every Content-Encoding value is empty *)
+Definition not_encoded (h : hdr) : bool := forallb (fun v => beq v []) (ce_values h).
 
 (* ================= handlers sharing the pool of gzip writers (gzipWriterPool) =================
    A pooled writer is represented by the bytes it still holds from whoever used it last.
@@ -366,7 +420,7 @@ Definition thread_step (n : nat) (pool : list str) (t : hst) : list str * hst :=
           end
       | [] =>
           (match g_sel (h_g t) with Some true => g_fed (h_g t) :: pool | _ => pool end,
-           mkH [] (h_g t) (Some (grw_result (h_g t))))
+           mkH [] (h_g t) (Some (grw_result sniff (h_g t))))
       end
   end.
 
@@ -390,6 +444,6 @@ Definition sys_run (sched : list (nat * nat)) (s : list str * list hst) : list s
 Definition outcome_of (t : hst) : result :=
   match h_done t with
   | Some r => r
-  | None => grw_result (grw_run sniff ctm (h_todo t) (h_g t))
+  | None => grw_result sniff (grw_run sniff ctm (h_todo t) (h_g t))
   end.
 End Pool.
